@@ -80,3 +80,53 @@ def block_jobs(arch, code, base, offsets, breakers, extra_splits=()):
                 break
             j += 1
     return jobs
+
+
+_asm_cache = {}
+
+
+def assemble_chained(arch, src, base):
+    """Like jitprog.assemble, but the blocks are laid out in source order: a block that does not fall through (it ends
+    with RET / JMP) gets a layout-only `next` constraint to the label that follows it in the text, so that code after
+    a RET is not placed at an arbitrary address. Returns (bytes, {label: offset}, [instruction offsets])."""
+    key = (arch, src, base)
+    if key in _asm_cache:
+        return _asm_cache[key]
+    import re
+    from miasm.analysis.machine import Machine
+    from miasm.core import parse_asm, asmblock
+    from miasm.core.asmblock import AsmConstraint
+    from miasm.core.locationdb import LocationDB
+    m = Machine(arch)
+    loc_db = LocationDB()
+    attrib = m.dis_engine.attrib if hasattr(m.dis_engine, "attrib") else int(arch.split("_")[-1].rstrip("lb") or 32)
+    asmcfg = parse_asm.parse_txt(m.mn, attrib, src, loc_db)
+    names = re.findall(r"^\s*([A-Za-z_][A-Za-z_0-9]*):", src, re.M)
+    # walk every chain of fall-through blocks from each label; link the chain's last block to the next label
+    for cur, nxt in zip(names, names[1:]):
+        block = asmcfg.loc_key_to_block(loc_db.get_name_location(cur))
+        seen = set()
+        while block is not None and block.loc_key not in seen:
+            seen.add(block.loc_key)
+            nexts = [c.loc_key for c in block.bto if c.c_t == AsmConstraint.c_next]
+            if not nexts:
+                dst = loc_db.get_name_location(nxt)
+                block.add_cst(dst, AsmConstraint.c_next)
+                asmcfg.add_edge(block.loc_key, dst, AsmConstraint.c_next)
+                break
+            if nexts[0] == loc_db.get_name_location(nxt):
+                break
+            block = asmcfg.loc_key_to_block(nexts[0])
+    loc_db.set_location_offset(loc_db.get_name_location(names[0]), base)
+    patches = asmblock.asm_resolve_final(m.mn, asmcfg)
+    lo = min(patches)
+    hi = max(o + len(b) for o, b in patches.items())
+    if lo != base:
+        raise RuntimeError("assemble_chained: code starts at %#x, not at %#x" % (lo, base))
+    buf = bytearray(hi - lo)
+    for o, b in patches.items():
+        buf[o - lo:o - lo + len(b)] = b
+    labels = {n: loc_db.get_location_offset(loc_db.get_name_location(n)) for n in names}
+    out = (bytes(buf), labels, sorted(patches))
+    _asm_cache[key] = out
+    return out
